@@ -297,6 +297,47 @@ func cmd1(c *Ctx) {
 	if n == 0 {
 		c.Bad(Q(fn)+":reject", fn.Pos(), "the dispatch function has no rejection return at all")
 	}
+	// the converse: once the policy switch was applied to a real error (not one of the two sentinels, not
+	// nil), every return that can follow hands that error to the caller
+	for _, call := range ir.Calls(fn) {
+		cv, ok := call.(*ssa.Call)
+		if !ok || ir.Static(cv) != policy || len(cv.Call.Args) < 2 {
+			continue
+		}
+		e := cv.Call.Args[1]
+		if ir.IsNilConst(e) {
+			continue
+		}
+		if ld, isLd := e.(*ssa.UnOp); isLd {
+			if _, isG := ld.X.(*ssa.Global); isG {
+				continue // errHelpRequested / errVersionRequested
+			}
+		}
+		bad := false
+		check := func(ret *ssa.Return) {
+			if len(ret.Results) != 1 || ret.Results[0] != e {
+				bad = true
+			}
+		}
+		after := false
+		for _, in := range cv.Block().Instrs {
+			if in == ssa.Instruction(cv) {
+				after = true
+				continue
+			}
+			if ret, isRet := in.(*ssa.Return); isRet && after {
+				check(ret)
+			}
+		}
+		for _, sc := range cv.Block().Succs {
+			for b := range ir.Reach(sc, nil, nil) {
+				if ir.IsReturn(b) {
+					check(b.Instrs[len(b.Instrs)-1].(*ssa.Return))
+				}
+			}
+		}
+		c.Check(!bad, fmt.Sprintf("%s:rejected=>returned@%s", Q(fn), relLine(c, fn, cv.Pos())), cv.Pos(), "after the policy switch was applied to an error, that error is what the function returns", "an error handed to the policy switch is not returned to the caller (under ContinueOnError the rejection would look like success)")
+	}
 	// an accepting return never calls the policy with a real error: covered by CMD-2/CMD-3.
 	// callers propagate
 	for _, name := range []string{"Cli.parse", "Cli.Run"} {
@@ -494,6 +535,48 @@ func cmd2(c *Ctx) {
 	}
 	sort.Strings(misuse)
 	c.Check(len(misuse) == 0, "uses(exiter, os.Exit)", g.Pos(), "the exit indirection is called only by the policy switch and handed only to flow steps; os.Exit appears only in its initialiser", strings.Join(misuse, "; "))
+	// what the package initialiser stores there does exit: every path of that function calls os.Exit with
+	// the function's own parameter
+	{
+		okExit, why := false, "the package initialiser does not store a function into the exit indirection"
+		if init, _ := g.Pkg.Members["init"].(*ssa.Function); init != nil {
+			ir.Instrs(init, func(in ssa.Instruction) {
+				st, isSt := in.(*ssa.Store)
+				if !isSt || st.Addr != ssa.Value(g) {
+					return
+				}
+				var ef *ssa.Function
+				switch v := st.Val.(type) {
+				case *ssa.Function:
+					ef = v
+				case *ssa.MakeClosure:
+					ef, _ = v.Fn.(*ssa.Function)
+				}
+				if ef == nil || len(ef.Params) != 1 || len(ef.Blocks) == 0 {
+					why = "the value stored into the exit indirection is not a function of the exit status"
+					return
+				}
+				exits := map[*ssa.BasicBlock]bool{}
+				for _, call := range ir.Calls(ef) {
+					if f := ir.Static(call); f != nil && ir.IsStdFunc(f, "os", "Exit") && call.Common().Args[0] == ssa.Value(ef.Params[0]) {
+						exits[call.Block()] = true
+					}
+				}
+				okExit = len(exits) > 0
+				if !exits[ef.Blocks[0]] {
+					for b := range ir.Reach(ef.Blocks[0], exits, nil) {
+						if ir.IsReturn(b) {
+							okExit = false
+						}
+					}
+				}
+				if !okExit {
+					why = "the function stored into the exit indirection can return without calling os.Exit with its argument: ExitOnError and cli.Exit would not end the process"
+				}
+			})
+		}
+		c.Check(okExit, "initialiser(exiter)", g.Pos(), "the exit indirection starts as a function that calls os.Exit with the status it is given, on every path", why)
+	}
 }
 
 // runPolicy walks fn for one scenario. errIs is the sentinel the error equals (nil: none).
